@@ -6,7 +6,10 @@
      radix-engine/src/object_modules/role_assignment (set_owner_role / lock_owner_role / set)
 
    Items:  "field"  an object field (test blueprint, public write / lock methods)
-           "kv"     an entry of a key-value collection (test blueprint, methods protected by the owner role)
+           "kv"     an entry of a key-value COLLECTION of the object (actor_open_key_value_entry; methods protected by the
+                    owner role)
+           "kvs"    an entry of a standalone KeyValueStore node owned by the object (key_value_store_open_entry - a
+                    different code path with its own lock check; methods protected by the owner role)
            "md"     a metadata entry               (metadata_setter / metadata_locker roles, unassigned -> owner)
            "roy"    the royalty amount of a method (royalty_setter / royalty_locker roles, unassigned -> owner)
            "owner"  the owner role                 (updater = the owner itself; lock_owner_role sets updater None
@@ -15,7 +18,7 @@
    A value is a small number (0 = absent for kv / md / roy).  The owner rule with value v is require(badge v);
    a caller is the set of badges it presents, so changing the owner changes who may call.           *)
 EXTENDS Integers, FiniteSets, TLC
-Items == {"field", "kv", "md", "roy", "owner", "role"}
+CONSTANT Items          \* {"field", "kv", "kvs", "md", "roy", "owner", "role"} or a subset containing "owner" and "role"
 Lockable == Items \ {"role"}
 Badges == {1, 2}
 Callers == SUBSET Badges                 \* {} = nobody's badge, {1,2} = every badge
@@ -28,7 +31,7 @@ vars == <<locked, val, ret>>
 OwnerOk(c) == val["owner"] \in c
 \* who may perform the operations on an item
 MayUpdate(i, c) ==
-  CASE i = "field" -> TRUE                                   \* public methods of the test blueprint
+  CASE i = "field" -> TRUE                                  \* public methods of the test blueprint
     [] i = "owner" -> ~locked["owner"] /\ OwnerOk(c)           \* updater Owner; after the lock: updater None = DenyAll
     [] OTHER -> OwnerOk(c)                                     \* kv: owner-role methods; md / roy / role: fallback to owner
 \* outcome class of an attempt to change item i: authorization is checked first, then the lock
@@ -42,20 +45,27 @@ Do(op, i, v, c, newVal, newLocked) ==
 \* write a value
 Update(i, v, c) == Do("update", i, v, c, v, locked[i])
 \* remove: kv / md entries only
-Remove(i, c) == i \in {"kv", "md"} /\ Do("remove", i, 0, c, 0, locked[i])
+Remove(i, c) == i \in {"kv", "kvs", "md"} /\ Do("remove", i, 0, c, 0, locked[i])
 \* lock (an absent kv / md entry can be locked too and then stays absent)
 Lock(i, c) == i \in Lockable /\ Do("lock", i, 0, c, val[i], TRUE)
 \* lock and write through the SAME substate handle (test blueprint field / kv): the write stores an unlocked
 \* substate again, so the item ends up changed and NOT locked - it was never locked in any committed state
-LockWrite(i, v, c) == i \in {"field", "kv"} /\ Do("lockwrite", i, v, c, v, FALSE)
+LockWrite(i, v, c) == i \in {"field", "kv", "kvs"} /\ Do("lockwrite", i, v, c, v, FALSE)
+\* lock and then update as two calls of ONE transaction: the update meets the fresh lock (the owner role: DenyAll) and
+\* fails, which fails the transaction and takes the lock back with it - nothing changes
+LockTx(i, v, c) ==
+  /\ i \in Lockable
+  /\ ret' = <<"locktx", i, v, c, IF Verdict(i, c) # "ok" THEN Verdict(i, c) ELSE IF i = "owner" THEN "auth" ELSE "locked">>
+  /\ UNCHANGED <<val, locked>>
 
 Init == /\ locked \in [Items -> BOOLEAN] /\ ~locked["role"]
-        /\ val \in [Items -> 0..2] /\ val["field"] \in Vals /\ val["owner"] \in Vals /\ val["role"] \in Vals
+        /\ val \in [Items -> 0..2] /\ val["owner"] \in Vals /\ val["role"] \in Vals
+        /\ ("field" \in Items => val["field"] \in Vals)
         /\ ret = <<"init", "-", 0, {}, "ok">>
 Next == \E c \in Callers :
           \/ \E i \in Items, v \in Vals : Update(i, v, c)
           \/ \E i \in Items : Remove(i, c) \/ Lock(i, c)
-          \/ \E i \in Items, v \in Vals : LockWrite(i, v, c)
+          \/ \E i \in Items, v \in Vals : LockWrite(i, v, c) \/ LockTx(i, v, c)
 Spec == Init /\ [][Next]_vars
 
 ---------------------------------------------------------------------------
